@@ -316,6 +316,9 @@ RANDOM_WALK = REG.add(Contract(
         "attempt starts with exactly the supplied residues positioned (established by from_topology / by the roll-back of the previous attempt)": "engine_matches_flags(self, meta_molecule)",
         "nothing recorded yet": "len(self.placed_nodes) == 0",
         "rewind depth": "self.nrewind >= 1",
+        "more directions than tries per step (5000 vs 80 in the program)": "len(self.vector_sphere) > self.maxiter and self.maxiter >= 0",
+        "positive box": "all([d > 0 for d in self.maxdim])",
+        "definition of the ghost predicate 'one of the vectors handed in'": "member_def(self.vector_sphere)",
     },
     ensures={
         "on success every residue of the molecule is positioned": "implies(self.success, all_built(self, meta_molecule))",
@@ -327,7 +330,7 @@ RANDOM_WALK = REG.add(Contract(
                     })},
     spec_fns={"tree_facts": tree_facts, "engine_matches_flags": engine_matches_flags, **{f"walk_{w}": walk_inv(w) for w in WALK_PARTS}, "pre_state_ok": pre_state_ok,
               "all_built": all_built, "others_untouched": others_untouched, "walker_frame": walker_frame,
-              "METAMOL_eq": lambda a, b: METAMOL.eq(a, b), "CNT": CNT, "has": has},
+              "METAMOL_eq": lambda a, b: METAMOL.eq(a, b), "CNT": CNT, "has": has, "member_def": lambda b: member_def(b)},
     props=("C17", "C04"),
 ))
 
@@ -342,3 +345,159 @@ def lemma_cnt_monotone(ctx):
     return [("base", [defn], CNT(s) <= CNT(s)),
             ("step", [defn, s <= t, CNT(s) <= CNT(t)], CNT(s) <= CNT(t + 1)),
             ("strict across a build step", [defn, mono, 0 <= s, s < t, b(s)], CNT(s) < CNT(t))]
+
+
+# ======================================================================================================
+# C05: _take_step and update_positions (bodies verified here; callers use UPDATE_ABS above)
+# ======================================================================================================
+from contracts import linalg as _L
+
+REG5 = Registry()           # registry used when verifying the bodies of _take_step / update_positions
+REG5.add(_L.PBC_COMPLETE)
+
+
+def take_step_ok(result, vectors, step_length, coord, box):
+    new, idx = result
+    v = [c[idx] for c in vectors.comps]
+    moved = NArr((3,), [ops.real(coord.data[i]) + v[i] * ops.real(step_length) for i in range(3)])
+    return z3.And(0 <= idx, idx < vectors.n, _L.vec_eq(new, _L.wrapped(moved, box)),
+                  *[z3.And(0 <= ops.real(new.data[i]), ops.real(new.data[i]) < ops.real(box.data[i])) for i in range(3)])
+
+
+TAKE_STEP = REG5.add(Contract(
+    "polyply.src.random_walk:_take_step",
+    params=dict(vectors=TList(V3), step_length=TReal, coord=V3, box=V3),
+    result=TTuple(V3, TInt),
+    requires={"at least one direction left": "len(vectors) >= 1", "positive box": "all([d > 0 for d in box])"},
+    ensures={"one of the given vectors, scaled by the step length, added to the coordinate and wrapped into the box":
+             "take_step_ok(result, vectors, step_length, coord, box)"},
+    spec_fns={"take_step_ok": take_step_ok},
+    props=("C05",),
+))
+
+# uninterpreted predicates naming the guards (their own bodies are verified in C07 / C16 units)
+_POSD_SORTS = ENGINE.fields["posd"].sorts()
+_ATTR_SORTS = METAMOL.fields["nodes"].v.sorts()
+FULFILL = z3.Function("fulfills_restraints", *([z3.RealSort()] * 3 + _ATTR_SORTS + [z3.BoolSort()]))
+MILESTONE = z3.Function("meets_milestones", *([z3.RealSort()] * 3 + [TNodeT.sort] + _POSD_SORTS + [z3.BoolSort()]))
+RESTRICT = z3.Function("direction_allowed", *([z3.RealSort()] * 6 + _ATTR_SORTS + [z3.BoolSort()]))
+OVERLAP = z3.Function("overlaps", *([z3.RealSort()] * 3 + [TNodeT.sort] + _POSD_SORTS + [z3.BoolSort()]))
+SIGMA = z3.Function("sigma_pair", z3.IntSort(), TNodeT.sort, TNodeT.sort, z3.RealSort())
+
+
+def p3(p):
+    return [ops.real(x) for x in p.data]
+
+
+ENG_GET_POINT = REG5.add(Contract(
+    "polyply.src.nonbond_engine:NonBondEngine.get_point",
+    params=dict(self=ENGINE, mol_idx=TInt, node=TNode), result=V3,
+    requires={"the residue is positioned": "has(self.posd, mol_idx, node)"},
+    ensures={"its current position": "result == self.posd[(mol_idx, node)]"},
+    spec_fns={"has": has}, trusted=True))
+ENG_GET_INTER = REG5.add(Contract(
+    "polyply.src.nonbond_engine:NonBondEngine.get_interaction",
+    params=dict(self=ENGINE, mol_idx_a=TInt, mol_idx_b=TInt, node_a=TNode, node_b=TNode), result=TTuple(TReal, TReal),
+    ensures={"the pair's size (mean of the two residue sizes) and well depth": "result[0] == SIGMA(mol_idx_a, node_a, node_b) and result[0] > 0"},
+    spec_fns={"SIGMA": SIGMA}, trusted=True))
+REG5.add(ENG_ADD)
+REG5.add(TAKE_STEP)
+REG5.add(Contract("polyply.src.random_walk:fulfill_geometrical_constraints", params=dict(point=V3, node_dict=METAMOL.fields["nodes"].v), result=TBool,
+                  ensures={"names the predicate": "result == FULFILL(*p3(point), *flat_attrs(node_dict))"},
+                  spec_fns={"FULFILL": FULFILL, "p3": p3, "flat_attrs": lambda r: METAMOL.fields["nodes"].v.flat(r)}, trusted=True))
+REG5.add(Contract("polyply.src.random_walk:is_restricted", params=dict(point=V3, old_point=V3, node_dict=METAMOL.fields["nodes"].v), result=TBool,
+                  ensures={"names the predicate": "result == RESTRICT(*p3(point), *p3(old_point), *flat_attrs(node_dict))"},
+                  spec_fns={"RESTRICT": RESTRICT, "p3": p3, "flat_attrs": lambda r: METAMOL.fields["nodes"].v.flat(r)}, trusted=True))
+REG5.add(Contract("polyply.src.random_walk:RandomWalk.checks_milestones", params=dict(self=WALK, current_node=TNode, current_position=V3, fudge=TReal), result=TBool,
+                  ensures={"names the predicate": "result == MILESTONE(*p3(current_position), current_node, *posd_flat(self.nonbond_matrix.posd))"},
+                  spec_fns={"MILESTONE": MILESTONE, "p3": p3, "posd_flat": lambda d: ENGINE.fields["posd"].flat(d)}, trusted=True))
+REG5.add(Contract("polyply.src.random_walk:RandomWalk._is_overlap", params=dict(self=WALK, point=V3, node=TNode), result=TBool,
+                  ensures={"names the predicate": "result == OVERLAP(*p3(point), node, *posd_flat(self.nonbond_matrix.posd))"},
+                  spec_fns={"OVERLAP": OVERLAP, "p3": p3, "posd_flat": lambda d: ENGINE.fields["posd"].flat(d)}, trusted=True))
+REG5.add(Contract("polyply.src.random_walk:RandomWalk.bendiness", params=dict(self=WALK, point=V3, node=TNode), result=TBool,
+                  ensures={"frame": "walker_frame(self, old(self), ['success', 'placed_nodes']) and same_posd(self.nonbond_matrix.posd, old(self.nonbond_matrix.posd))"},
+                  modifies=["self.prev_prob"], spec_fns={"walker_frame": walker_frame, "same_posd": same_posd}, trusted=True))
+
+
+def accepted_point_ok(self_, old_self, new_point, unwrapped_point, last_point, step_length, current_node, prev_node):
+    """what an accepted placement satisfies (statement of C05/C07): the point is a wrapped step of the stated length from the
+    position of the residue it is grown from, lies in the box, met every guard, and is the only change of the engine"""
+    old_posd = old_self.fields["nonbond_matrix"].fields["posd"]
+    posd = self_.fields["nonbond_matrix"].fields["posd"]
+    mol = old_self.fields["mol_idx"]
+    pf = ENGINE.fields["posd"].flat(old_posd)
+    kt = key_term(old_posd.k, (mol, prev_node))
+    box = old_self.fields["maxdim"]
+    nodeattr = old_self.fields["molecule"].fields["nodes"]
+    cur_attrs = [c[current_node] for c in nodeattr.comps]
+    return z3.And(
+        added_exactly(posd, old_posd, mol, current_node, new_point),
+        *[ops.real(last_point.data[i]) == old_posd.comps[i][kt] for i in range(3)],
+        ops.real(step_length) == ops.real(old_self.fields["step_fudge"]) * SIGMA(mol, prev_node, current_node),
+        *[z3.And(0 <= ops.real(new_point.data[i]), ops.real(new_point.data[i]) < ops.real(box.data[i])) for i in range(3)],
+        FULFILL(*p3(new_point), *cur_attrs),
+        MILESTONE(*p3(new_point), current_node, *pf),
+        RESTRICT(*p3(unwrapped_point), *p3(last_point), *cur_attrs),
+        z3.Not(OVERLAP(*p3(new_point), current_node, *pf)),
+    )
+
+
+MEMBER = z3.Function("handed_in_direction", z3.RealSort(), z3.RealSort(), z3.RealSort(), z3.BoolSort())    # ghost: v is one of the vectors handed in
+
+
+def member_def(entry_bundle):
+    """definition of the ghost predicate: exactly the rows of the bundle handed in"""
+    j = z3.Int("j_")
+    a, b, c = z3.Reals("va_ vb_ vc_")
+    return z3.And(
+        z3.ForAll([j], z3.Implies(z3.And(0 <= j, j < entry_bundle.n), MEMBER(*[comp[j] for comp in entry_bundle.comps]))),
+        z3.ForAll([a, b, c], z3.Implies(MEMBER(a, b, c), z3.Exists([j], z3.And(0 <= j, j < entry_bundle.n, entry_bundle.comps[0][j] == a,
+                                                                              entry_bundle.comps[1][j] == b, entry_bundle.comps[2][j] == c)))))
+
+
+def step_from(new_point, unwrapped_point, last_point, step_length, box):
+    """new_point = wrap(unwrapped), unwrapped = last_point + v * step_length for one of the vectors handed in"""
+    a, b, c = z3.Reals("va_ vb_ vc_")
+    v = (a, b, c)
+    return z3.And(
+        z3.Exists([a, b, c], z3.And(MEMBER(a, b, c), *[ops.real(unwrapped_point.data[i]) == ops.real(last_point.data[i]) + v[i] * ops.real(step_length) for i in range(3)])),
+        _L.vec_eq(new_point, _L.wrapped(unwrapped_point, box)))
+
+
+def bundle_inv(vector_bundle, entry_bundle, step_count):
+    """the bundle shrinks by one per failed try and only holds vectors that were handed in"""
+    i = z3.Int("i_")
+    return z3.And(vector_bundle.n == entry_bundle.n - step_count,
+                  z3.ForAll([i], z3.Implies(z3.And(0 <= i, i < vector_bundle.n), MEMBER(*[comp[i] for comp in vector_bundle.comps]))))
+
+
+UPDATE_BODY = REG5.add(Contract(
+    "polyply.src.random_walk:RandomWalk.update_positions",
+    params=dict(self=WALK, vector_bundle=TList(V3), current_node=TNode, prev_node=TNode),
+    result=TBool,
+    requires={"grown from a positioned neighbour": "has(self.nonbond_matrix.posd, self.mol_idx, prev_node)",
+              "more directions than tries": "len(vector_bundle) > self.maxiter and self.maxiter >= 0",
+              "positive box": "all([d > 0 for d in self.maxdim])",
+              "definition of the ghost predicate 'one of the vectors handed in'": "member_def(vector_bundle)",
+              "the residue is a node of the molecule": "current_node in self.molecule.nodes"},
+    ensures={
+        "an accepted point met every guard, is one step from its parent, inside the box, and is the only change":
+            "implies(result, accepted_point_ok(self, old(self), new_point, unwrapped_point, last_point, step_length, current_node, prev_node))",
+        "the step is one of the directions handed in": "implies(result, step_from(new_point, unwrapped_point, last_point, step_length, old(self.maxdim)))",
+        "a failed placement leaves the engine untouched": "implies(Not(result), same_posd(self.nonbond_matrix.posd, old(self.nonbond_matrix.posd)))",
+        "frame": "walker_frame(self, old(self), ['success', 'placed_nodes'])",
+    },
+    loops={0: Loop({"engine untouched while trying": "same_posd(self.nonbond_matrix.posd, entry['self'].nonbond_matrix.posd)",
+                    "frame": "walker_frame(self, entry['self'], ['success', 'placed_nodes']) and current_node == entry['current_node'] and prev_node == entry['prev_node']"
+                             " and all([a == b for a, b in zip(last_point, entry['last_point'])]) and step_length == entry['step_length']",
+                    "tries": "0 <= step_count and step_count <= self.maxiter",
+                    "bundle": "bundle_inv(vector_bundle, entry['vector_bundle'], step_count)"})},
+    spec_fns={"has": has, "accepted_point_ok": accepted_point_ok, "same_posd": same_posd, "walker_frame": walker_frame, "step_from": step_from,
+              "bundle_inv": bundle_inv, "member_def": member_def},
+    props=("C05", "C07", "C17"),
+    exposes=dict(new_point=V3, unwrapped_point=V3, last_point=V3, step_length=TReal),
+))
+
+# the caller (_random_walk) is verified against the SAME contract that the body of update_positions is proved to meet
+REG[UPDATE_BODY.target] = UPDATE_BODY
+REG[ENG_GET_POINT.target] = ENG_GET_POINT
